@@ -41,7 +41,7 @@ CoreAtoms == {W("a"), W("1"), Lx("\\#"), Lx("\\-"), Lx("\\."), Lx("&#32;"), Lx("
               Lx("\\~"), Lx("\\_"), Lx("!"),
               Code("`x y`"), Em("*", B1), Em("_", B3), Strong("*", B5), Strong("_", B1),
               Link(B1, "(u)"), Link(B2, "(u \"x y\")"), Img(B1, "(/a \"t\")"), Auto("<http://a.b>"), Br("\\")}
-TinyAtoms == {W("a"), Lx("\\#"), Lx("&#32;"), Code("`x y`"), Em("*", B1), Strong("_", B3), Link(B2, "(u)"), Br("  ")}
+TinyAtoms == {W("a"), Lx("\\#"), Lx("\\+"), Code("`x y`"), Em("*", B4), Strong("_", B3), Link(B2, "(u)"), Br("\\")}
 
 (* ---------------- leaf pools ---------------- *)
 Fences == {Fence(0, "`", 3, "", "", <<>>),
@@ -49,7 +49,8 @@ Fences == {Fence(0, "`", 3, "", "", <<>>),
            Fence(0, "~", 3, "", "`", <<"```">>),
            Fence(0, "`", 4, " a b", "~", <<"~~~", "", "  y">>),
            Fence(0, "~", 4, "sh", "", <<"", "x">>),
-           Fence(0, "~", 3, " x`y", "", <<"- z">>)}
+           Fence(0, "~", 3, " x`y", "", <<"- z">>),
+           Fence(0, "`", 3, "a\\\\b&amp;c \\&lt;", "", <<"> q">>)}
 ICodes == {ICode(<<"x">>), ICode(<<"x", "", "  y">>)}
 Thems  == {Them(0, "*", "***"), Them(0, "-", "---"), Them(0, "_", "___"), Them(0, "*", "* * *"),
            Them(0, "-", "- - -"), Them(0, "-", "-----")}
@@ -61,7 +62,7 @@ CoreLeaves == {Fence(0, "`", 3, "sh", "", <<"x">>), Fence(0, "~", 3, "", "`", <<
 TinyLeaves == {Fence(0, "~", 3, "", "`", <<"```">>), Them(0, "-", "---"), Html(0, <<"<b>">>)}
 
 (* ---------------- shapes ---------------- *)
-FullAtx    == {[lvl |-> 1, closer |-> ""], [lvl |-> 2, closer |-> " #"], [lvl |-> 6, closer |-> " ##  "], [lvl |-> 3, closer |-> ""]}
+FullAtx    == {[lvl |-> 1, closer |-> ""], [lvl |-> 2, closer |-> " #"], [lvl |-> 6, closer |-> " ##  "], [lvl |-> 3, closer |-> ""], [lvl |-> 4, closer |-> " {#id}"]}
 CoreAtx    == {[lvl |-> 1, closer |-> ""], [lvl |-> 2, closer |-> " #"]}
 FullQuotes == {[ind |-> 0, marker |-> "> "], [ind |-> 0, marker |-> ">"], [ind |-> 2, marker |-> "> "], [ind |-> 3, marker |-> ">"]}
 CoreQuotes == {[ind |-> 0, marker |-> "> "], [ind |-> 1, marker |-> ">"]}
@@ -70,7 +71,9 @@ FullLists  == {LS("ulist", ind, c, 0, p, l) : ind \in {0, 2}, c \in {"-", "+", "
               \cup {LS("olist", ind, c, n, p, l) : ind \in {0, 3}, c \in {".", ")"}, n \in {1, 7, 10}, p \in {1, 2}, l \in BOOLEAN}
 CoreLists  == {LS("ulist", 0, "-", 0, 1, TRUE), LS("ulist", 0, "*", 0, 3, FALSE), LS("ulist", 2, "+", 0, 1, TRUE),
                LS("olist", 0, ".", 1, 1, TRUE), LS("olist", 0, ")", 7, 2, FALSE)}
-TinyLists  == {LS("ulist", 0, "-", 0, 1, TRUE), LS("olist", 0, ".", 1, 1, FALSE)}
+TinyLists  == {LS("ulist", 0, "-", 0, 1, TRUE), LS("ulist", 0, "*", 0, 3, FALSE), LS("olist", 0, ".", 1, 1, FALSE)}
+TinyAtx    == {[lvl |-> 2, closer |-> " #"]}
+TinyQuotes == {[ind |-> 0, marker |-> "> "]}
 
 AllJoins  == {"sp", "nl", "none"}
 CoreJoins == {"sp", "none"}
